@@ -46,7 +46,7 @@ var rep *lib.Report
 var knownList []lib.Known
 
 // curDev names the deviation set the model is asked for: "cur" is Dev.current of Model.lean.
-// VERIF_C19_DEV overrides it (a subset of the letters l f t g, or "-") so that a proposed fix can be
+// VERIF_C19_DEV overrides it (a subset of the letters l f t g u, or "-") so that a proposed fix can be
 // checked in a scratch tree against the model with the corresponding flag switched off.
 var curDev = "cur"
 
@@ -62,6 +62,7 @@ var devFlags = []struct {
 	{"f", "C19-int-float-2p53"},
 	{"t", "C19-ignored-length-index"},
 	{"g", "C19-gen-root-number"},
+	{"u", "C19-uint64-wrap"},
 }
 
 func flagID(letter byte) string {
@@ -311,7 +312,7 @@ func judge(cr *caseRun, ans []string, pend *[]pending, reqs2 *[]string) {
 			}
 			if normSet(fr.implDiff) != spec {
 				rep.Count("impl.diff_deviates."+fr.fl, 1)
-				p := pending{cr: cr, fr: fr, what: "diff", impl: fr.implDiff, spec: spec, subs: subsets(knownLetters("lftg")), q0: len(*reqs2), classHd: "diff:" + fr.fl}
+				p := pending{cr: cr, fr: fr, what: "diff", impl: fr.implDiff, spec: spec, subs: subsets(knownLetters("lftgu")), q0: len(*reqs2), classHd: "diff:" + fr.fl}
 				for _, s := range p.subs {
 					*reqs2 = append(*reqs2, "diff\t"+fr.fl+"\t"+s+"\t0\t"+cr.a+"\t"+cr.b+"\t"+cr.ig)
 				}
@@ -349,7 +350,7 @@ func judge(cr *caseRun, ans []string, pend *[]pending, reqs2 *[]string) {
 			}
 			if fr.implMatch != specM {
 				rep.Count("impl.match_deviates."+fr.fl, 1)
-				p := pending{cr: cr, fr: fr, what: "match", impl: fr.implMatch, spec: specM, subs: subsets(knownLetters("fg")), q0: len(*reqs2), classHd: "match:" + fr.fl}
+				p := pending{cr: cr, fr: fr, what: "match", impl: fr.implMatch, spec: specM, subs: subsets(knownLetters("fgu")), q0: len(*reqs2), classHd: "match:" + fr.fl}
 				for _, s := range p.subs {
 					*reqs2 = append(*reqs2, "match\t"+fr.fl+"\t"+s+"\t"+cr.a+"\t"+cr.b)
 				}
@@ -549,6 +550,8 @@ func main() {
 		h.Write([]byte(c.B.canon()))
 		h.Write([]byte{0})
 		h.Write([]byte(pathsText(c.Ign)))
+		h.Write([]byte{0})
+		h.Write([]byte(c.Tag))
 		k := h.Sum64()
 		if _, dup := seen[k]; dup {
 			rep.Count("stream.duplicates_skipped", 1)
